@@ -7,7 +7,7 @@
 use linfa::traits::{FitWith, Predict};
 use linfa::{DatasetBase, ParamGuard};
 use linfa_clustering::{IncrKMeansError, KMeans, KMeansInit};
-use linfa_nn::distance::L2Dist;
+use linfa_nn::distance::{Distance, L1Dist, L2Dist, LInfDist};
 use ndarray::Array2;
 use proptest::prelude::*;
 use rand_xoshiro::rand_core::SeedableRng;
@@ -19,7 +19,8 @@ use vengine::{Obs, Tier};
 
 /// centroids: |Δ| <= TOL_CENTROID * (largest magnitude among batch rows and centroids)
 pub const TOL_CENTROID: f64 = 1e-12;
-/// two centroids count as equally near when their squared distances differ by <= TOL_TIE * (1 + scale^2)
+/// two centroids count as equally near when their reduced distances differ by <= TOL_TIE * (1 + scale^q),
+/// q = 2 for L2 (reduced distance = squared distance), q = 1 for L1 / LInf (reduced distance = distance)
 pub const TOL_TIE: f64 = 1e-12;
 /// inertia: relative 1e-10 plus TOL_TIE * scale^2
 pub const TOL_INERTIA: f64 = 1e-10;
@@ -28,7 +29,64 @@ pub const TOL_FLAG: f64 = 1e-9;
 /// seeded initialisation: all possible initial centroid tuples are enumerated up to this many
 pub const ENUM_CAP: usize = 3000;
 
-pub const TOLERANCES: [f64; 3] = [1e-6, 1e-2, 10.0];
+/// on both sides of 1, so that centroid shifts land between tol and tol^2
+pub const TOLERANCES: [f64; 5] = [1e-6, 1e-2, 0.5, 2.0, 10.0];
+
+#[derive(Debug, Clone, Copy, PartialEq, Eq, Serialize, Deserialize, Default)]
+pub enum Metric {
+    L1,
+    #[default]
+    L2,
+    LInf,
+}
+
+/// The harness' own definition of the three metrics (never calls linfa-nn).
+impl Metric {
+    /// reduced distance between two points: what assignment and inertia are defined on
+    fn rdist(self, a: &[f64], b: &[f64]) -> f64 {
+        match self {
+            Metric::L1 => a.iter().zip(b).map(|(x, y)| (x - y).abs()).sum(),
+            Metric::L2 => a.iter().zip(b).map(|(x, y)| (x - y) * (x - y)).sum(),
+            Metric::LInf => a.iter().zip(b).map(|(x, y)| (x - y).abs()).fold(0.0, f64::max),
+        }
+    }
+    /// true distance between two centroid matrices (all entries): what the tolerance is compared with
+    fn matrix_dist(self, a: &[Vec<f64>], b: &[Vec<f64>]) -> f64 {
+        let d = a.iter().flatten().zip(b.iter().flatten()).map(|(x, y)| (x - y).abs());
+        match self {
+            Metric::L1 => d.sum(),
+            Metric::L2 => d.map(|v| v * v).sum::<f64>().sqrt(),
+            Metric::LInf => d.fold(0.0, f64::max),
+        }
+    }
+    /// magnitude of a reduced distance for data of magnitude `scale`
+    fn rscale(self, scale: f64) -> f64 {
+        match self {
+            Metric::L2 => 1.0 + scale * scale,
+            _ => 1.0 + scale,
+        }
+    }
+}
+
+/// linfa-nn distance types usable as the `dist_fn` hyper-parameter
+pub trait Met: Distance<f64> + Clone + std::fmt::Debug + serde::de::DeserializeOwned + 'static {
+    fn make() -> Self;
+}
+impl Met for L1Dist {
+    fn make() -> Self {
+        L1Dist
+    }
+}
+impl Met for L2Dist {
+    fn make() -> Self {
+        L2Dist
+    }
+}
+impl Met for LInfDist {
+    fn make() -> Self {
+        LInfDist
+    }
+}
 
 #[derive(Debug, Clone, Serialize, Deserialize)]
 pub enum Init {
@@ -47,9 +105,10 @@ pub struct KmCase {
     pub n_runs: usize,
     pub tolerance: f64,
     pub batches: Vec<Vec<Vec<f64>>>,
+    /// the distance function hyper-parameter (`KMeans::params_with(k, rng, dist)`)
+    #[serde(default)]
+    pub metric: Metric,
 }
-
-type Model = KMeans<f64, L2Dist>;
 
 #[derive(Debug, Clone, PartialEq)]
 struct State {
@@ -57,15 +116,11 @@ struct State {
     counts: Vec<f64>,
 }
 
-fn observe(m: &Model) -> State {
+fn observe<D: Met>(m: &KMeans<f64, D>) -> State {
     State {
         centroids: m.centroids().rows().into_iter().map(|r| r.to_vec()).collect(),
         counts: m.cluster_count().to_vec(),
     }
-}
-
-fn sqdist(a: &[f64], b: &[f64]) -> f64 {
-    a.iter().zip(b).map(|(x, y)| (x - y) * (x - y)).sum()
 }
 
 fn scale_of(batch: &[Vec<f64>], cents: &[Vec<f64>]) -> f64 {
@@ -86,17 +141,17 @@ struct Replay {
 
 /// One mini-batch step from `pre`. `choice[i]` (if given) is the cluster linfa's own nearest-centroid
 /// routine names for row i on the pre-batch centroids; it is only used to settle ties.
-fn replay(pre: &State, batch: &[Vec<f64>], choice: Option<&[usize]>) -> Replay {
+fn replay(metric: Metric, pre: &State, batch: &[Vec<f64>], choice: Option<&[usize]>) -> Replay {
     let k = pre.centroids.len();
     let scale = scale_of(batch, &pre.centroids);
-    let tie_tol = TOL_TIE * (1.0 + scale * scale);
+    let tie_tol = TOL_TIE * metric.rscale(scale);
     let mut members = Vec::with_capacity(batch.len());
     let mut inertia = 0.0;
     let mut unresolved_tie = false;
     let mut had_tie = false;
     let mut bad_choice = None;
     for (i, row) in batch.iter().enumerate() {
-        let d: Vec<f64> = pre.centroids.iter().map(|c| sqdist(c, row)).collect();
+        let d: Vec<f64> = pre.centroids.iter().map(|c| metric.rdist(c, row)).collect();
         let best = d.iter().cloned().fold(f64::INFINITY, f64::min);
         let tied: Vec<usize> = (0..k).filter(|c| d[*c] <= best + tie_tol).collect();
         let mut pick = tied.first().cloned().unwrap_or(0);
@@ -148,14 +203,13 @@ fn states_match(got: &State, want: &State, scale: f64) -> Result<(), String> {
     Ok(())
 }
 
-fn inertia_ok(got: f64, want: f64, scale: f64) -> bool {
-    (got - want).abs() <= TOL_INERTIA * want.abs() + TOL_TIE * (1.0 + scale * scale)
+fn inertia_ok(metric: Metric, got: f64, want: f64, scale: f64) -> bool {
+    (got - want).abs() <= TOL_INERTIA * want.abs() + TOL_TIE * metric.rscale(scale)
 }
 
 /// `Some(flag)` if the recurrence decides the converged flag, `None` on the boundary.
-fn expected_flag(pre: &State, post: &State, tolerance: f64) -> Option<bool> {
-    let d2: f64 = pre.centroids.iter().zip(&post.centroids).map(|(a, b)| sqdist(a, b)).sum();
-    let dist = d2.sqrt();
+fn expected_flag(metric: Metric, pre: &State, post: &State, tolerance: f64) -> Option<bool> {
+    let dist = metric.matrix_dist(&pre.centroids, &post.centroids);
     if (dist - tolerance).abs() <= TOL_FLAG * dist.max(tolerance) {
         None
     } else {
@@ -163,14 +217,14 @@ fn expected_flag(pre: &State, post: &State, tolerance: f64) -> Option<bool> {
     }
 }
 
-fn build_params(c: &KmCase) -> Option<linfa_clustering::KMeansValidParams<f64, Xoshiro256Plus, L2Dist>> {
+fn build_params<D: Met>(c: &KmCase) -> Option<linfa_clustering::KMeansValidParams<f64, Xoshiro256Plus, D>> {
     let init = match &c.init {
         Init::Precomputed(cs) => KMeansInit::Precomputed(Array2::from_shape_fn((c.k, c.p), |(i, j)| cs[i][j])),
         Init::Random => KMeansInit::Random,
         Init::PlusPlus => KMeansInit::KMeansPlusPlus,
         Init::Para => KMeansInit::KMeansPara,
     };
-    KMeans::params_with_rng(c.k, Xoshiro256Plus::seed_from_u64(c.seed))
+    KMeans::params_with(c.k, Xoshiro256Plus::seed_from_u64(c.seed), D::make())
         .tolerance(c.tolerance)
         .n_runs(c.n_runs)
         .init_method(init)
@@ -180,7 +234,7 @@ fn build_params(c: &KmCase) -> Option<linfa_clustering::KMeansValidParams<f64, X
 
 /// A model holding the given centroids and zero counts, built through the public serde
 /// implementation; used only to ask linfa's own `predict` how it breaks a tie.
-fn model_from_state(st: &State, p: usize) -> Option<Model> {
+fn model_from_state<D: Met>(st: &State, p: usize) -> Option<KMeans<f64, D>> {
     let k = st.centroids.len();
     let flat: Vec<f64> = st.centroids.iter().flatten().cloned().collect();
     let v = json!({
@@ -211,9 +265,10 @@ fn well_formed(c: &KmCase) -> bool {
 }
 
 /// Runs the whole history; returns the observed (state, inertia, converged) after every batch.
-fn run_history(c: &KmCase, obs: &mut Obs, judge: bool) -> Option<Vec<(State, f64, bool)>> {
-    let params = build_params(c)?;
-    let mut model: Option<Model> = None;
+fn run_history<D: Met>(c: &KmCase, obs: &mut Obs, judge: bool) -> Option<Vec<(State, f64, bool)>> {
+    let metric = c.metric;
+    let params = build_params::<D>(c)?;
+    let mut model: Option<KMeans<f64, D>> = None;
     let mut out = vec![];
     let mut touched = vec![0usize; c.k];
     for (bi, batch) in c.batches.iter().enumerate() {
@@ -228,7 +283,7 @@ fn run_history(c: &KmCase, obs: &mut Obs, judge: bool) -> Option<Vec<(State, f64
         let choice: Option<Vec<usize>> = if judge {
             let pm = match (&model, &pre) {
                 (Some(m), _) => Some(m.clone()),
-                (None, Some(st)) => model_from_state(st, c.p),
+                (None, Some(st)) => model_from_state::<D>(st, c.p),
                 _ => None,
             };
             pm.and_then(|m| vengine::guard(|| m.predict(&arr).to_vec()).ok())
@@ -258,12 +313,12 @@ fn run_history(c: &KmCase, obs: &mut Obs, judge: bool) -> Option<Vec<(State, f64
             match &pre {
                 Some(pre) => {
                     let scale = scale_of(batch, &pre.centroids);
-                    let rp = replay(pre, batch, choice.as_deref());
+                    let rp = replay(metric, pre, batch, choice.as_deref());
                     obs.class_if(rp.had_tie, "km_tie_between_centroids");
                     if let Some((row, ch, d)) = &rp.bad_choice {
                         obs.fail(
                             "km:predict-not-nearest",
-                            format!("batch {bi} row {row}: predict on the pre-batch model names centroid {ch}, squared distances are {:?}", d),
+                            format!("batch {bi} row {row}: predict on the pre-batch model names centroid {ch}, reduced distances are {:?}", d),
                         );
                     }
                     if rp.unresolved_tie {
@@ -272,8 +327,8 @@ fn run_history(c: &KmCase, obs: &mut Obs, judge: bool) -> Option<Vec<(State, f64
                         if let Err(e) = states_match(&post, &rp.state, scale) {
                             obs.fail("km:recurrence", format!("batch {bi} ({} rows) from state {:?}: {e}", batch.len(), pre));
                         }
-                        obs.ensure(inertia_ok(inertia, rp.inertia, scale), "km:inertia", || {
-                            format!("batch {bi}: inertia {inertia}, mean squared distance to the nearest pre-batch centroid is {}", rp.inertia)
+                        obs.ensure(inertia_ok(metric, inertia, rp.inertia, scale), "km:inertia", || {
+                            format!("batch {bi}: inertia {inertia}, mean reduced distance ({:?}) to the nearest pre-batch centroid is {}", metric, rp.inertia)
                         });
                         for (cl, t) in touched.iter_mut().enumerate() {
                             if rp.members.contains(&cl) {
@@ -281,12 +336,17 @@ fn run_history(c: &KmCase, obs: &mut Obs, judge: bool) -> Option<Vec<(State, f64
                             }
                         }
                     }
-                    if let Some(flag) = expected_flag(pre, &post, c.tolerance) {
+                    {
+                        let shift = metric.matrix_dist(&pre.centroids, &post.centroids);
+                        let (lo, hi) = (c.tolerance.min(c.tolerance * c.tolerance), c.tolerance.max(c.tolerance * c.tolerance));
+                        obs.class_if(shift > lo && shift < hi, "km_shift_between_tol_and_tol_squared");
+                    }
+                    if let Some(flag) = expected_flag(metric, pre, &post, c.tolerance) {
                         obs.ensure(flag == converged, "km:converged-flag", || {
                             format!(
-                                "batch {bi}: fit_with reported {} but the centroids moved from {:?} to {:?} with tolerance {}",
+                                "batch {bi}: fit_with reported {} but the centroids moved from {:?} to {:?}, {:?} distance {} with tolerance {}",
                                 if converged { "Ok (converged)" } else { "NotConverged" },
-                                pre.centroids, post.centroids, c.tolerance
+                                pre.centroids, post.centroids, metric, metric.matrix_dist(&pre.centroids, &post.centroids), c.tolerance
                             )
                         });
                     }
@@ -364,10 +424,10 @@ fn first_seeded_batch(c: &KmCase, batch: &[Vec<f64>], post: &State, inertia: f64
         let scale = scale_of(batch, &pre.centroids);
         // exact ties (duplicate initial centroids): lowest index, which is what a strict `<` scan yields;
         // if nothing matches and ties were involved the step is not judged
-        let rp = replay(&pre, batch, None);
+        let rp = replay(c.metric, &pre, batch, None);
         any_tie |= rp.had_tie;
-        if states_match(post, &rp.state, scale).is_ok() && inertia_ok(inertia, rp.inertia, scale) {
-            let flag_ok = expected_flag(&pre, post, c.tolerance).map(|f| f == converged).unwrap_or(true);
+        if states_match(post, &rp.state, scale).is_ok() && inertia_ok(c.metric, inertia, rp.inertia, scale) {
+            let flag_ok = expected_flag(c.metric, &pre, post, c.tolerance).map(|f| f == converged).unwrap_or(true);
             if flag_ok {
                 for (cl, t) in touched.iter_mut().enumerate() {
                     if rp.members.contains(&cl) {
@@ -392,6 +452,14 @@ fn first_seeded_batch(c: &KmCase, batch: &[Vec<f64>], post: &State, inertia: f64
 }
 
 pub fn check(c: &KmCase, obs: &mut Obs) {
+    match c.metric {
+        Metric::L1 => check_with::<L1Dist>(c, obs),
+        Metric::L2 => check_with::<L2Dist>(c, obs),
+        Metric::LInf => check_with::<LInfDist>(c, obs),
+    }
+}
+
+fn check_with<D: Met>(c: &KmCase, obs: &mut Obs) {
     if !well_formed(c) {
         obs.skip("malformed_case");
         return;
@@ -402,13 +470,20 @@ pub fn check(c: &KmCase, obs: &mut Obs) {
         Init::PlusPlus => "km_init_plusplus",
         Init::Para => "km_init_para",
     });
+    obs.class(match c.metric {
+        Metric::L1 => "km_metric_l1",
+        Metric::L2 => "km_metric_l2",
+        Metric::LInf => "km_metric_linf",
+    });
+    obs.class_if(c.tolerance > 1.0, "km_tolerance_above_one");
+    obs.class_if(c.tolerance < 1.0, "km_tolerance_below_one");
     obs.class_if(c.batches.len() == 1, "km_single_batch");
     obs.class_if(c.batches.len() >= 4, "km_four_or_more_batches");
     obs.class_if(c.k == 1, "km_k1");
     obs.class_if(c.batches.iter().any(|b| b.len() == 1), "km_one_row_batch");
     obs.class_if(c.batches.iter().any(|b| b.len() < c.k), "km_batch_smaller_than_k");
-    let Some(first) = run_history(c, obs, true) else {
-        if build_params(c).is_none() {
+    let Some(first) = run_history::<D>(c, obs, true) else {
+        if build_params::<D>(c).is_none() {
             obs.fail("km:params-rejected", "valid hyper-parameters were rejected");
         }
         return;
@@ -416,7 +491,7 @@ pub fn check(c: &KmCase, obs: &mut Obs) {
     // the model is a function of the history alone: a second run gives the identical model
     if !matches!(c.init, Init::Para) {
         let mut quiet = Obs::default();
-        if let Some(second) = run_history(c, &mut quiet, false) {
+        if let Some(second) = run_history::<D>(c, &mut quiet, false) {
             let same = first.len() == second.len()
                 && first.iter().zip(&second).all(|(a, b)| a.0 == b.0 && a.1.to_bits() == b.1.to_bits() && a.2 == b.2);
             obs.ensure(same, "km:not-a-function-of-history", || {
@@ -441,6 +516,7 @@ struct Meta {
     seed: u64,
     n_runs: usize,
     tolerance: f64,
+    metric: Metric,
 }
 
 pub fn strategy(_tier: Tier) -> impl Strategy<Value = KmCase> {
@@ -456,8 +532,9 @@ pub fn strategy(_tier: Tier) -> impl Strategy<Value = KmCase> {
         any::<u64>(),
         prop_oneof![Just(1usize), Just(3usize)],
         proptest::sample::select(TOLERANCES.to_vec()),
+        prop_oneof![2 => Just(Metric::L2), 1 => Just(Metric::L1), 1 => Just(Metric::LInf)],
     )
-        .prop_map(|(p, k, init_kind, data_mode, sizes, seed, n_runs, tolerance)| Meta { p, k, init_kind, data_mode, sizes, seed, n_runs, tolerance });
+        .prop_map(|(p, k, init_kind, data_mode, sizes, seed, n_runs, tolerance, metric)| Meta { p, k, init_kind, data_mode, sizes, seed, n_runs, tolerance, metric });
     meta.prop_flat_map(|m| {
         let cell: BoxedStrategy<f64> = match m.data_mode {
             1 => small_int_f64(-3, 3).boxed(),
@@ -520,6 +597,6 @@ pub fn strategy(_tier: Tier) -> impl Strategy<Value = KmCase> {
             2 => Init::PlusPlus,
             _ => Init::Para,
         };
-        KmCase { p: m.p, k, init, seed: m.seed, n_runs: m.n_runs, tolerance: m.tolerance, batches }
+        KmCase { p: m.p, k, init, seed: m.seed, n_runs: m.n_runs, tolerance: m.tolerance, batches, metric: m.metric }
     })
 }
